@@ -165,6 +165,43 @@ def bagNext (s : List Int) (op : GOp) (r : GRet) : Option (List Int) :=
 
 def bag (init : List Int) : Spec (List Int) GOp GRet := { init := init, next := bagNext }
 
+/-! ### Locks: a family of mutual-exclusion locks indexed by a number.
+    Operations carry the calling thread as first argument.  `lock` is enabled only when the lock is
+    free (or, for a re-entrant lock, owned by the caller): a history is linearizable to this
+    specification exactly when critical sections of the same lock never overlap. -/
+
+abbrev LockSt := List (Int × Int × Nat)     -- (lock, owner, depth)
+
+def lockOwner (s : LockSt) (l : Int) : Option (Int × Nat) := (s.find? (fun e => e.1 == l)).map (·.2)
+def lockSet (s : LockSt) (l t : Int) (d : Nat) : LockSt := (l, t, d) :: s.filter (fun e => !(e.1 == l))
+def lockClear (s : LockSt) (l : Int) : LockSt := s.filter (fun e => !(e.1 == l))
+
+def lockNext (reentrant : Bool) (nlocks : Nat) (s : LockSt) (op : GOp) (r : GRet) : Option LockSt :=
+  match op.name, op.args, r with
+  | "lock", [t, l], [] => match lockOwner s l with
+    | none => some (lockSet s l t 1)
+    | some (o, d) => if reentrant ∧ o = t then some (lockSet s l t (d + 1)) else none
+  | "try_lock", [t, l], [1] => match lockOwner s l with
+    | none => some (lockSet s l t 1)
+    | some (o, d) => if reentrant ∧ o = t then some (lockSet s l t (d + 1)) else none
+  | "try_lock", [t, l], [0] => match lockOwner s l with
+    | none => none
+    | some (o, _) => if reentrant ∧ o = t then none else some s
+  | "unlock", [t, l], [] => match lockOwner s l with
+    | some (o, d) => if o = t then (if d ≤ 1 then some (lockClear s l) else some (lockSet s l t (d - 1))) else none
+    | none => none
+  | "unlock_if", [_, _], [0] => some s
+  | "unlock_if", [t, l], [1] => match lockOwner s l with
+    | some (o, d) => if o = t then (if d ≤ 1 then some (lockClear s l) else some (lockSet s l t (d - 1))) else none
+    | none => none
+  -- lock_all / unlock_all of lock_array take the cells one by one and are not atomic operations; the
+  -- history specification leaves them unconstrained (the harness' occupancy oracle judges them)
+  | "lock_all", [_], [] => some s
+  | "unlock_all", [_], [] => some s
+  | _, _, _ => none
+
+def lockSpec (reentrant : Bool) (nlocks : Nat) : Spec LockSt GOp GRet := { init := [], next := lockNext reentrant nlocks }
+
 /-! ### Spec laws quoted by the properties (C20): theorems about the reference model -/
 
 theorem update_ret_inserted (m : MapSt) (k v allow : Int) (m' : MapSt) (r : GRet)
